@@ -121,6 +121,20 @@ def foreign_signature_events(ctx, blobs):
             # without any creation time the packet is not well-formed; force one
             pkt, hin = build.sig_packet(fk, 0x00, 'sha256', hashed, [], build.subject_octets(0x00, doc=doc), created=1262305000, issuer_in=issuer_in)
         ev.append(record_foreign(ctx, blobs, pub, pkt, hin, doc, -1, False, 'multi-%d' % k, None, kept, copies))
+    # the same subpacket type in BOTH areas (issuer key id / issuer fingerprint / creation time / a private type given hashed and repeated
+    # unhashed, as several implementations do), with a hashed area PGPy would not encode this way itself
+    odd = [('boolean 2', build.subpacket(7, b'\x02')), ('unassigned flag bits', build.subpacket(27, b'\x43')), ('five-octet length', build.subpacket(100, b'abc', form=5)),
+           ('two-octet length', build.subpacket(26, b'https://example.org/' + b'p' * 200, form=2)), ('utf-8 policy', build.subpacket(26, 'https://example.org/\xfcn'.encode('utf-8')))]
+    both = [('issuer', build.subpacket(16, fk.keyid), 'none'), ('issuer fingerprint', build.subpacket(33, b'\x04' + fk.fingerprint), 'unhashed'),
+            ('creation time', build.subpacket(2, struct.pack('>I', 1262305000)), 'unhashed'), ('private type', build.subpacket(100, b'abc'), 'unhashed'),
+            ('policy', build.subpacket(26, b'https://example.org/p'), 'hashed')]
+    for oname, osp in odd:
+        for bname, bsp, issuer_in in both:
+            for order in (0, 1):
+                hashed = [osp, bsp] if order == 0 else [bsp, osp]
+                pkt, hin = build.sig_packet(fk, 0x00, 'sha256', hashed, [bsp], build.subject_octets(0x00, doc=doc),
+                                            created=None if bname == 'creation time' else 1262305000, issuer_in=issuer_in)
+                ev.append(record_foreign(ctx, blobs, pub, pkt, hin, doc, -1, False, 'both-areas: %s + %s (%d)' % (bname, oname, order), None, kept, copies))
     # hashed areas of several thousand octets (a long notation value, many attested digests) that ALSO carry things the typed classes would
     # normalise: whatever the size of the area, it is hashed and written back as received
     for size in (3000, 4090, 4100, 6000, 20000):
